@@ -97,7 +97,9 @@ def opParse (s : Str) : String :=
 
 /-- outcome class only: ok | rest | err -/
 def opAccept (which : String) (s : Str) : String :=
-  match (if which == "spec" then parseDocSpec s else if which == "strict" then parseDocStrictOnly s else parseDoc s) with
+  -- "refspec" / "ref": the reviewed grammar (with / without the specification-side repairs of the recorded findings)
+  match (if which == "spec" then parseDocSpec s else if which == "strict" then parseDocStrictOnly s
+         else if which == "refspec" then parseDocRef true s else if which == "ref" then parseDocRef false s else parseDoc s) with
   | .ok (_, []) => "ok"
   | .ok (_, _) => "rest"
   | .error .fuel => "fuel"
